@@ -37,6 +37,10 @@ SELECTIONS = [
     ("getnoop", "leaves&tutorial_get..explicit_noop"),
     # a removable setup test selected as a leaf together with its dependant
     ("getgui", "leaves&tutorial_get..explicit_noop,tutorial_gui..client_noop"),
+    # both producers of removable states selected together with the test cloned over them
+    ("guiboth", "leaves&tutorial_gui,tutorial_get..implicit_both"),
+    # a leaf together with one of its inner setup tests from another test set
+    ("getconn", "leaves..tutorial_get..explicit_noop,nonleaves..connect"),
     ("finale", "leaves&tutorial_finale"),
     ("t1t3", "normal&tutorial1,tutorial3"),
     ("nongui", "normal&nongui"),
@@ -62,7 +66,7 @@ WORKER_SETS = [
 
 def catalogue(tier, lazy_share=True):
     """All scenarios of the tier as Scenario objects, cheapest first within a round-robin order."""
-    small = ["t1", "t12", "t2l", "t3", "gui", "getnoop", "getgui", "connect"]
+    small = ["t1", "t12", "t2l", "t3", "gui", "getnoop", "getgui", "getconn", "connect"]
     scenarios = []
     # other vm variants and extra parameters (few, the variety is in the worker sets below)
     fedora = dict(DEFAULT_VMS, vm1="only Fedora\n")
@@ -844,7 +848,7 @@ NONTRIVIAL = {
 }
 
 
-def make_run(prop, bias, scenario_filter=None, quick_cases=1280, thorough_cases=16000, per_shard_scenarios=(6, 16),
+def make_run(prop, bias, scenario_filter=None, quick_cases=1280, thorough_cases=16000, per_shard_scenarios=(7, 18),
              enumerate_failures=False):
     def run(ctx):
         simmod.setup()
